@@ -783,7 +783,8 @@ def block_1014_check(sample_data):
     if first_1014[-2:] == Block1014.PAD_CHAR * 2:
         if len(sample_data) == 1014:
             return True
-        if len(sample_data) == 2028 and sample_data[-2:] == Block1014.PAD_CHAR * 2:
+        # two or more blocks (the sample may be cut short of the file) - check the second block trailer
+        if len(sample_data) >= 2028 and sample_data[2026:2028] == Block1014.PAD_CHAR * 2:
             return True
     return False
 
